@@ -8,13 +8,29 @@ import (
 //go:embed inventory.json
 var inventoryJSON []byte
 
-// Confirmed is the function inventory (stable name -> signature shape) of the tree
-// the rules were confirmed against by reading.  Regenerate with
-// `gogucheck -mkinventory` only after re-reading a changed tree.
-func Confirmed() map[string]string {
-	m := map[string]string{}
-	if err := json.Unmarshal(inventoryJSON, &m); err != nil {
+type confirmed struct {
+	Inventory map[string]string `json:"inventory"`
+	Sources   map[string]Source `json:"sources"`
+}
+
+func loadConfirmed() confirmed {
+	var c confirmed
+	if err := json.Unmarshal(inventoryJSON, &c); err != nil {
 		panic(err)
 	}
-	return m
+	if c.Inventory == nil {
+		c.Inventory = map[string]string{}
+	}
+	if c.Sources == nil {
+		c.Sources = map[string]Source{}
+	}
+	return c
 }
+
+// Confirmed is the function inventory (stable name -> signature shape and parameter
+// names) of the tree the rules were confirmed against by reading.  Regenerate with
+// `gogucheck -mkinventory` only after re-reading a changed tree.
+func Confirmed() map[string]string { return loadConfirmed().Inventory }
+
+// ConfirmedSources holds the declarations of the unexported functions of that tree.
+func ConfirmedSources() map[string]Source { return loadConfirmed().Sources }
